@@ -91,13 +91,23 @@ def zoo_renamings(chk, tier, seed):
                     return '%s/%s/%s' % (nm, cname, direction), pf2, pr2, tg2
                 builders.append((name, cname, direction, build, float(ref.value)))
     for name, cname, direction, build, refval in builders:
-        for order in ('given', 'reversed'):
+        for order in ('given', 'reversed', 'interleaved'):
             sel = dict(check='zoo_value_depends_on_names_or_order', portfolio=name, renaming=cname, direction=direction, order=order)
             chk.cnt['eval_zoo_renamings'] += 1
             try:
                 _, pf, pr, tg = build(seed)
                 if order == 'reversed':
                     pf = eao.portfolio.Portfolio(list(reversed(pf.assets)))
+                elif order == 'interleaved':      # first, last, second, last but one, ...: neighbours in the given order are separated
+                    al = list(pf.assets)
+                    if len(al) < 3:
+                        continue
+                    il = []
+                    while al:
+                        il.append(al.pop(0))
+                        if al:
+                            il.append(al.pop(-1))
+                    pf = eao.portfolio.Portfolio(il)
                 with quiet():
                     res = pf.setup_optim_problem(pr, tg).optimize()
             except Exception as e:
